@@ -22,6 +22,12 @@
 (*                  array views / reachable set were read (or it was planned on) before: *)
 (*                  the base's views then sit in a cache (tally) that the derived MDP    *)
 (*                  must never show                                                      *)
+(*                  and followed by DeriveAnother (a second MDP is derived with the same  *)
+(*                  set of overridden components: other override functions on the same   *)
+(*                  base, another base instance of the same class with another discount,  *)
+(*                  or a second sub-goal option on the same base) and RequeryFirst: the    *)
+(*                  first derived MDP, still alive, is read only now and must answer from  *)
+(*                  its own components                                                    *)
 (*     sub-task:    the same machine with ovr = {initial, reward, absorbing} and the     *)
 (*                  option's overrides, followed by PlanStep (planner = exact oracle)    *)
 (*     Option.run_on / Policy.run_on: OptStep (one loop iteration: action, successor,   *)
@@ -145,9 +151,16 @@ PolSupp(m, s) == {a \in Ac(m) : m.pol[s][a] > 0}
 RECURSIVE IPow(_, _)
 IPow(b, k) == IF k = 0 THEN 1 ELSE Safe(b * IPow(b, k - 1))
 GPow(m, k) == Norm(IPow(m.GN, k), IPow(m.GD, k))
-StepReward(m, k, s, a, t) == RMul(GPow(m, k), <<m.R[s][a][t], 1>>)
-\* (O) discounted return of a history <<s, a, t>>...
-DiscSum(m, h) == RSumTo([i \in 1..Len(h) |-> StepReward(m, i - 1, h[i][1], h[i][2], h[i][3])], Len(h))
+\* exact for the first m.hmax steps (gamma^k representable in 30 bits); later steps contribute nothing to the
+\* tracked return and are accounted for by the bound TailBound (runs within hmax steps are exact: TailBound is not used)
+StepReward(m, k, s, a, t) == IF k < m.hmax THEN RMul(GPow(m, k), <<m.R[s][a][t], 1>>) ELSE <<0, 1>>
+\* (O) discounted return of a history <<s, a, t>>... (its first hmax terms)
+DiscSum(m, h) == RSumTo([i \in 1..MinI(Len(h), m.hmax) |-> StepReward(m, i - 1, h[i][1], h[i][2], h[i][3])],
+                        MinI(Len(h), m.hmax))
+RMaxAbs(m) == MaxSet({0} \cup {AbsI(m.R[s][a][t]) : s \in St(m), a \in Ac(m), t \in St(m)})
+\* |sum_{k >= hmax} gamma^k r_k| <= rmax * gamma^hmax / (1 - gamma)   (only needed when gamma < 1)
+TailBound(m) == IF m.GN = 0 \/ m.GN = m.GD THEN <<0, 1>>
+           ELSE Norm(Safe(RMaxAbs(m) * IPow(m.GN, m.hmax) * m.GD), Safe(IPow(m.GD, m.hmax) * (m.GD - m.GN)))
 \* (O) what the end of a run that stands in state c after n <= lim steps has to be: reaching a terminal
 \* state within the limit (including on exactly the lim-th step) is ending at the goal; raising is
 \* required only when lim steps were taken and the last state is still not terminal
@@ -188,6 +201,9 @@ Prim(m, s) == [a \in Ac(m) |-> IF a \in Avail(m, s)
 \* the semi-MDP's actions at s: options whose initiation set contains s (+ primitive actions)
 SemiActions(m, s) == [prim |-> IF m.inclprim = 1 THEN Avail(m, s) ELSE {},
                       opts |-> {o \in 1..Len(m.oinit) : s \in Range(m.oinit[o])}]
+
+\* control states in which the (first) derived MDP exists
+Built == {"done", "again", "requeried", "planned"}
 
 \* ====================================================================== machines
 InitCommon ==
@@ -248,9 +264,21 @@ AugSet ==
 AugInstantiate ==
   /\ Mode \in {"aug", "plan"} /\ pc = "instance" /\ pc' = "done"
   /\ UNCHANGED <<iid, ovr, d, opt, cur, nst, cum, hist, j, l, tally, fail>>
+\* a second derived MDP of the same kind (M.sib: its base and its override values); it is kept in hist.
+\* VARIANT "sharedclass" (MC-only demonstration) models one class shared per (base class, overridden set):
+\* writing the second MDP's components rewrites the first
+DeriveAnother ==
+  /\ Mode \in {"aug", "plan"} /\ pc = "done" /\ pc' = "again"
+  /\ hist' = <<Derived(M.sib, ovr)>>
+  /\ d' = IF Variant = "sharedclass" /\ M.sib.cls = M.cls THEN Derived(M.sib, ovr) ELSE d
+  /\ UNCHANGED <<iid, ovr, opt, cur, nst, cum, j, l, tally, fail>>
+\* the first derived MDP is queried (functional interface, array views, planner) only now
+RequeryFirst ==
+  /\ Mode \in {"aug", "plan"} /\ pc = "again" /\ pc' = "requeried"
+  /\ UNCHANGED <<iid, ovr, d, opt, cur, nst, cum, hist, j, l, tally, fail>>
 \* planner.plan_on(sub_task): the exact optimum of the derived instance
 PlanStep ==
-  /\ Mode = "plan" /\ pc = "done" /\ pc' = "planned"
+  /\ Mode = "plan" /\ pc = "requeried" /\ pc' = "planned"
   /\ opt' = PlanOracle(M, d)
   /\ UNCHANGED <<iid, ovr, d, cur, nst, cum, hist, j, l, tally, fail>>
 
@@ -307,19 +335,19 @@ TrFinish ==
           /\ UNCHANGED <<iid, ovr, d, opt, cur, nst, cum, hist, j, l, tally, fail>>
      ELSE Reject(IF M.outcome = "dist" THEN "wrong-number-of-simulations" ELSE "raised-without-raising-run")
 
-Next == WarmBase \/ AugClass \/ AugSet \/ AugInstantiate \/ PlanStep \/ OptStep \/ OptBreak \/ OptCheck
+Next == WarmBase \/ DeriveAnother \/ RequeryFirst \/ AugClass \/ AugSet \/ AugInstantiate \/ PlanStep \/ OptStep \/ OptBreak \/ OptCheck
         \/ TrStep \/ TrEnd \/ TrFinish
 Spec == Init /\ [][Next]_vars
 
 \* ====================================================================== emission
 Emit ==
-  CASE Mode = "aug" /\ pc = "done" ->
+  CASE Mode = "aug" /\ pc = "requeried" ->
          PrintT(ToJson([kind |-> "aug", iid |-> iid, ovr |-> ovr, d |-> d,
-                        eff |-> Eff(M), views |-> Views(M, d),
+                        eff |-> Eff(M), views |-> Views(M, d), d2 |-> hist[1],
                         cachediffers |-> (tally # <<>> /\ tally[1] # Views(M, d))]))
     [] Mode = "plan" /\ pc = "planned" ->
          PrintT(ToJson([kind |-> "plan", iid |-> iid, d |-> d, judge |-> opt.judge, v |-> opt.v, q |-> opt.q,
-                        nmax |-> opt.nmax, implabs |-> opt.implabs, views |-> Views(M, d),
+                        nmax |-> opt.nmax, implabs |-> opt.implabs, views |-> Views(M, d), d2 |-> hist[1],
                         cachediffers |-> (tally # <<>> /\ tally[1] # Views(M, d))]))
     [] Mode = "opt" /\ pc \in {"returned", "raised"} ->
          PrintT(ToJson([kind |-> "opt", iid |-> iid, s0 |-> IF hist = <<>> THEN cur ELSE hist[1][1],
@@ -330,24 +358,25 @@ Emit ==
                         nst |-> nst, lim |-> M.lim,
                         joint |-> OutsJoint(tally), st |-> OutsST(tally), s |-> OutsS(tally),
                         exp |-> IF Len(tally) = 0 THEN Zero ELSE ExpReturn(tally, M.n),
+                        tail |-> IF \E i \in 1..Len(tally) : tally[i][2] > M.hmax THEN TailBound(M) ELSE Zero,
                         n |-> M.n, prim |-> Prim(M, M.s0), acts |-> SemiActions(M, M.s0)]))
     [] OTHER -> TRUE
 
 \* ====================================================================== properties
 \* --- augment(): every component that was not overridden is the base's, including the discount
 AugPreserved ==
-  (Mode \in {"aug", "plan"} /\ pc \in {"done", "planned"}) =>
+  (Mode \in {"aug", "plan"} /\ pc \in Built) =>
      /\ d.discount = Eff(M)
      /\ \A c \in Comps(M) \ ovr : d[c] = BaseC(M, c)
 AugOverridden ==
-  (Mode \in {"aug", "plan"} /\ pc \in {"done", "planned"}) => \A c \in ovr : d[c] = OvC(M, c)
+  (Mode \in {"aug", "plan"} /\ pc \in Built) => \A c \in ovr : d[c] = OvC(M, c)
 AugMatchesOracle ==
-  (Mode \in {"aug", "plan"} /\ pc \in {"done", "planned"}) => d = Derived(M, ovr)
+  (Mode \in {"aug", "plan"} /\ pc \in Built) => d = Derived(M, ovr)
 \* the array views of the derived MDP are those of the oracle's derived MDP, whatever was cached on the base:
 \* every overridden reward / transition shows on the support, declared absorbing states are in the vector,
 \* the reachable set is closed from the derived initial support; the base's cache is left as it was
 ViewsOfDerived ==
-  (Mode \in {"aug", "plan"} /\ pc \in {"done", "planned"}) =>
+  (Mode \in {"aug", "plan"} /\ pc \in Built) =>
      LET v == Views(M, d) inst == AsInstance(M, d) IN
      /\ v = Views(M, Derived(M, ovr))
      /\ \A s \in St(M) : \A a \in Ac(M) : \A t \in St(M) :
@@ -356,6 +385,12 @@ ViewsOfDerived ==
      /\ InitSupp(inst) \subseteq v.reach
      /\ \A s \in v.reach \ ExplAbs(inst) : Edges(inst, s) \subseteq v.reach
      /\ (tally # <<>> => tally[1] = Views(M, Derived(M, {})))
+\* two derived MDPs alive at once: each answers from its own components, whatever was derived later
+DerivedIsolated ==
+  (Mode \in {"aug", "plan"} /\ pc \in {"again", "requeried", "planned"}) =>
+     /\ d = Derived(M, ovr)
+     /\ hist = <<Derived(M.sib, ovr)>>
+     /\ Views(M, d) = Views(M, Derived(M, ovr))
 \* nothing is read before it was set, non-tabular bases get no lists
 AugOrder ==
   (Mode \in {"aug", "plan"}) =>
@@ -365,7 +400,7 @@ AugOrder ==
 \* --- sub-goal sub-task: base discount, base dynamics, rewards clipped only off the sub-goals,
 \*     absorbing exactly at the sub-goals (and the base's absorbing states when asked), uniform start
 SubTaskSound ==
-  (Mode = "plan" /\ pc \in {"done", "planned"}) =>
+  (Mode = "plan" /\ pc \in Built) =>
      /\ d.discount = Eff(M)
      /\ d.actions = M.avail /\ d.next = M.P
      /\ \A s \in St(M) : \A a \in Ac(M) : \A t \in St(M) :
@@ -398,7 +433,8 @@ OptFirstTerminal ==
 OptWithinLimit ==
   (Mode \in {"opt", "trace"}) => (nst <= M.lim /\ (Mode = "opt" => Len(hist) = nst))
 OptReturnExact ==
-  (Mode \in {"opt", "trace"}) => cum = DiscSum(M, hist)
+  (Mode \in {"opt", "trace"} /\ MinI(Len(hist), M.hmax) <= 40) => cum = DiscSum(M, hist)     \* (deeper recursion overflows TLC's stack;
+                                                                                            \*  longer undiscounted sums are cross-checked outside)
 OptStepsFollowModel ==
   (Mode \in {"opt", "trace"}) =>
      \A i \in 1..Len(hist) : hist[i][2] \in PolSupp(M, hist[i][1]) /\ M.P[hist[i][1]][hist[i][2]][hist[i][3]] > 0
@@ -409,8 +445,16 @@ TraceTally ==
      /\ \A i \in 1..Len(tally) : tally[i][1] \in TermSet(M) /\ tally[i][2] <= M.lim
      /\ SumSet([x \in OutsJoint(tally) |-> x.c], OutsJoint(tally)) = Len(tally)
 \* --- instance filter
+\* MDP!WellFormed with discount 0 admitted
+WF(m) ==
+  /\ \A s \in St(m) : \A a \in Avail(m, s) : SumTo([t \in St(m) |-> m.P[s][a][t]], m.N) = m.PD
+  /\ \A s \in St(m) : \A a \in Ac(m) : \A t \in St(m) : m.P[s][a][t] >= 0
+  /\ SumTo([s \in St(m) |-> m.p0[s]], m.N) = m.ID
+  /\ m.GN >= 0 /\ m.GN <= m.GD
 InstancesWellFormed ==
-  /\ WellFormed(M)
+  /\ WF(M)
+  /\ (Mode \in {"aug", "plan"} => M.GN > 0 /\ WF(M.sib))
+  /\ (Mode \in {"opt", "trace"} => M.hmax >= 0 /\ (M.GN = 0 \/ M.GN = M.GD \/ M.hmax <= 20))
   /\ (Mode \in {"aug", "plan"} => Eff(M) = <<M.GN, M.GD>>)
   /\ (Mode \in {"opt", "trace"} => \A s \in St(M) : PolSupp(M, s) # {} /\ PolSupp(M, s) \subseteq Avail(M, s))
 =============================================================================
